@@ -21,7 +21,7 @@ SPEC = dict(
         "transition; non-trivial = distinct transitions that are a torchjd call on a state where at least one requested .grad "
         "already exists (accumulation rather than creation)"
     ),
-    bound=dict(quick="10 programs x 2 initial states (all None / arbitrary content) x all histories of <= 4 events", thorough="<= 6 events"),
+    bound=dict(quick="11 programs x 2 initial states (all None / arbitrary content) x all histories of <= 4 events", thorough="<= 6 events"),
     assumptions=[
         "graphs without retain_grad() tensors; deterministic aggregators (Constant, Mean, UPGrad)",
         "the graph is retained (retain_graph=True) so that calls can be repeated; freed-graph behaviour is C13",
@@ -30,7 +30,7 @@ SPEC = dict(
     ],
 )
 
-PROGRAMS = ("gen-inputs", "shared-subexpr", "sum-heads", "equal-sized", "unrequested", "unreachable", "nograd-leaf", "mtl", "mtl-shared-taskparam", "mtl-unreachable")
+PROGRAMS = ("matrix", "gen-inputs", "shared-subexpr", "sum-heads", "equal-sized", "unrequested", "unreachable", "nograd-leaf", "mtl", "mtl-shared-taskparam", "mtl-unreachable")
 DETERMINISM_SLICE = 4
 
 
@@ -63,7 +63,13 @@ def _build(prog, aggname):
         inner = Constant(torch.tensor([1.0, -2.0, 3.0, 5.0][:m], dtype=torch.float64)) if aggname == "const" else UPGrad()
         return RecordingAggregator(inner)
 
-    if prog == "gen-inputs":  # inputs given as a one-shot iterator, tensors as a tuple
+    if prog == "matrix":  # a 2-d parameter: with init "content" its pre-existing .grad is dense but NOT contiguous (column-major)
+        W = T([[0.5, -1.0, 2.0], [1.5, 0.25, -0.75]])
+        outs = [(W.t() @ a).sum() * c, (W * W).sum()]
+        req, inter = [W, a, c], outs
+        call = lambda k, agg: backward(outs, agg, inputs=req, retain_graph=True, parallel_chunk_size=k)  # noqa: E731
+        m = 2
+    elif prog == "gen-inputs":  # inputs given as a one-shot iterator, tensors as a tuple
         h = a * b
         outs = [h.sum() * c, (h * h).sum()]
         req, inter = [a, b, c], [h] + outs
@@ -169,7 +175,11 @@ def run_case(case):
     if case["init"] == "content":
         for i, p in enumerate(params):
             if i % 2 == 0:
-                p.grad = torch.full_like(p, 0.5 + i)
+                if p.dim() >= 2:  # dense, non-contiguous: what a plain loss.backward() leaves on a parameter stored transposed
+                    g = (torch.arange(p.numel(), dtype=p.dtype).reshape(tuple(p.shape)[::-1]) * 0.125 + 0.5 + i).t()
+                    p.grad = g
+                else:
+                    p.grad = torch.full_like(p, 0.5 + i)
     # events
     events = [("B", None), ("B", 1)]
     for i in range(len(req)):
